@@ -16,11 +16,73 @@ from ..interp import truth
 KEEP_ALL = "SingleMemoryStorageSchedule"   # the property exempts it: it keeps all n steps
 
 
+def rule_converter_flags(chk, ctx):
+    """converter (sequence -> actions): the `write_adj_deps` flag of a Forward is decided from the operation that precedes
+    it in the sequence.  Only a Write_Forward announces that the step's adjoint data is wanted (and C12.SEQ shows that
+    the step is then the unit step before the adjoint position); on every other branch the flag is the constant False.
+    A branch that does not test for Write_Forward and lets the flag be anything but False writes adjoint data for a
+    step that is not next to the adjoint position."""
+    import ast
+    for rel, q, f in ctx.repo.all_functions():
+        if not (q.startswith(shared.CONVERTER + ".") and q.endswith("_iterator")):
+            continue
+        flags = set()
+        for n in ast.walk(f):
+            if isinstance(n, ast.Call) and isinstance(n.func, ast.Name) and n.func.id == "Forward":
+                e = n.args[3] if len(n.args) > 3 else next((k.value for k in n.keywords if k.arg == "write_adj_deps"), None)
+                if isinstance(e, ast.Name):
+                    flags.add(e.id)
+        if not flags:
+            continue
+        k = 0
+
+        def walk(body, guard):
+            nonlocal k
+            for st in body:
+                if isinstance(st, ast.If):
+                    t = ast.unparse(st.test)
+                    walk(st.body, guard + [("+", t)])
+                    walk(st.orelse, guard + [("-", t)])
+                    continue
+                if isinstance(st, (ast.While, ast.For, ast.With, ast.Try)):
+                    for fld in ("body", "orelse", "finalbody"):
+                        walk(getattr(st, fld, []) or [], guard)
+                    for h in getattr(st, "handlers", []):
+                        walk(h.body, guard)
+                    continue
+                if isinstance(st, ast.Assign) and len(st.targets) == 1 and isinstance(st.targets[0], ast.Name) \
+                        and st.targets[0].id in flags:
+                    v = st.value
+                    announced = any(s == "+" and "Write_Forward" in t for s, t in guard)
+                    cons = f"{rel[:-3].replace('/', '.')}.{q}#adj-flag[{k}]"
+                    k += 1
+                    chk.files.add(rel)
+                    chk.functions.add(f"{rel[:-3]}.{q}")
+                    if isinstance(v, ast.Constant) and v.value is False:
+                        chk.decide("C12.ONE", cons, True, "flag is False on this branch", rel=rel, node=st, nontrivial=False)
+                    elif announced:
+                        chk.decide("C12.ONE", cons, True, "flag set under a test for the preceding Write_Forward", rel=rel, node=st,
+                                   nontrivial=False)
+                    elif "Write_Forward" in ast.unparse(v):
+                        chk.decide("C12.ONE", cons, None, f"`{ast.unparse(st)}`: the flag is computed from a test for Write_Forward; "
+                                   "not followed", rel=rel, node=st, nontrivial=False)
+                    elif isinstance(v, ast.Constant) or isinstance(v, (ast.Compare, ast.BoolOp, ast.UnaryOp)):
+                        chk.decide("C12.ONE", cons, False,
+                                   f"`{ast.unparse(st)}` on a branch that does not test for a preceding Write_Forward: the Forward "
+                                   "would write adjoint dependency data for a step that the sequence did not announce as the one "
+                                   "before the adjoint position", rel=rel, node=st, nontrivial=False)
+                    else:
+                        chk.decide("C12.ONE", cons, None, f"`{ast.unparse(st)}`: value of the flag not followed", rel=rel, node=st,
+                                   nontrivial=False)
+        walk(f.body, [])
+
+
 def run(chk, ctx):
     chk.describe("C12.ONE", "adjoint dependencies go to WORK only for the single step immediately before the adjoint position")
     chk.describe("C12.CLEAR", "Reverse clears the adjoint dependency data (except the keep-everything schedule)")
     chk.describe("C12.SEQ", "Write_Forward(k) is followed by the unit step Forward [k-1, k] in the sequence builders")
     runs = all_runs(chk, ctx)
+    rule_converter_flags(chk, ctx)
     for run_ in runs:
         for rec in recs(run_.interp):
             st, cons = rec.state, ycons(run_, rec)
